@@ -113,6 +113,7 @@ func (t *tree) build(root string) error {
 		}
 		if j == "invalid" || j == "all" {
 			os.WriteFile(filepath.Join(p, "invalid.toml"), []byte(strings.Replace(cfgText(otherID, "x"), `"off"`, `"sometimes"`, 1)), 0o644)
+			os.WriteFile(filepath.Join(p, "zzz_late_defect.toml"), []byte(cfgText(t.exactID, "late-defect-must-not-be-loaded")+"\n[open_rgb]\nwhite = 1979-05-27\n"), 0o644)
 			os.WriteFile(filepath.Join(p, "zzz_date.toml"), []byte(strings.Replace(cfgText(otherID, "x"), "octave = 0", "octave = 1979-05-27", 1)), 0o644)
 		}
 		if j == "txt" || j == "all" {
